@@ -589,6 +589,22 @@ func c15GenManifest(t *rapid.T) c15Input {
 			}
 		}
 	}
+	// leading material: blank lines, whitespace-only lines, a document start marker (positions are positions in
+	// the caller's text, so they shift with it)
+	if !flowJSON {
+		switch rapid.IntRange(0, 7).Draw(t, "lead") {
+		case 0:
+			w.emit(w.eol)
+		case 1:
+			w.emit(w.eol + "   " + w.eol + w.eol)
+		case 2:
+			w.emit("---" + w.eol)
+		case 3:
+			w.emit(w.eol + w.eol + "---" + w.eol)
+		}
+	} else if rapid.IntRange(0, 3).Draw(t, "leadJSON") == 0 {
+		w.emit(w.eol + "  ")
+	}
 	if flowJSON {
 		w.emit("{")
 		extra()
